@@ -10,6 +10,42 @@ from ..idioms import cname, where
 from ..re_model import CLS, MOD, REModel
 
 
+def persistent_md_is_the_callers(ctx, rm, init):
+    """scan_id continuity across sessions rests on RE.md BEING the mapping the caller supplied (a PersistentDict, a plain dict kept by
+    the caller): whenever `md` is not None the stored object is `md` itself - not a copy, not a replacement chosen on falsiness (a new
+    persistent store is empty, i.e. falsy)."""
+    rule = "C17.D3-persistent-md-identity"
+    g = q.cfg(init, q.quiet_policy(rm.repo))
+    stores = [s for s in A.walk_stmts(init.node.body) if isinstance(s, ast.Assign) and A.norm(s.targets[0]) == "self.md"]
+    if len(stores) != 1:
+        ctx.ob(rule, cname(init, None, "one store of self.md in __init__"), False, f"{len(stores)} store(s)", where=where(init, init.node))
+        return
+    st = stores[0]
+    nid = g.nodes_of(st)[0]
+
+    def is_param(e, at):
+        if not (isinstance(e, ast.Name) and e.id == "md"):
+            return False
+        for kind, val, dn in q.reaching_defs(g, at, "md"):
+            if kind == "param":
+                continue
+            # a re-definition is fine only where md was None
+            if q.guard_true_dominates(g, dn.stmt, lambda t: A.norm(t) == "md is None", "T") is not None \
+                    and q.guard_true_dominates(g, dn.stmt, lambda t: A.norm(t) == "md is not None", "F") is not None:
+                return False
+        return True
+    v = st.value
+    if isinstance(v, ast.IfExp) and A.norm(v.test) == "md is None":
+        ok = is_param(v.orelse, nid)
+    elif isinstance(v, ast.IfExp) and A.norm(v.test) == "md is not None":
+        ok = is_param(v.body, nid)
+    else:
+        ok = is_param(v, nid)
+    ctx.ob(rule, cname(init, None, "self.md is the caller's mapping whenever one is given"), ok,
+           "" if ok else f"`{A.head(st)}`: a mapping supplied by the caller can be replaced (e.g. when it is empty) or copied - the scan_id is then kept somewhere the "
+           "caller's persistent store never sees, and restarts after a restart", nontrivial=True, where=where(init, st))
+
+
 def run(ctx):
     rm = REModel(ctx.repo)
     repo = rm.repo
@@ -90,6 +126,7 @@ def run(ctx):
     ok = any(isinstance(s, ast.Return) and A.norm(s.value) in ("md.get('scan_id', 0) + 1", '1 + md.get("scan_id", 0)') for s in d.node.body)
     ctx.ob("C17.D3-scan-id", cname(d, None, "md.get('scan_id', 0) + 1"), ok, "" if ok else "the default source no longer increases the scan_id by exactly one", where=where(d, d.node))
     init = rm.m("__init__")
+    persistent_md_is_the_callers(ctx, rm, init)
     dflt = [dd for a, dd in zip(reversed(init.node.args.kwonlyargs), reversed(init.node.args.kw_defaults)) if a.arg == "scan_id_source"]
     ok = bool(dflt) and A.norm(dflt[0]) == "default_scan_id_source" and any(A.norm(s) == "self.scan_id_source = scan_id_source" for s in init.node.body)
     ctx.ob("C17.D3-scan-id", cname(init, None, "default scan_id_source wired"), ok, "" if ok else "default changed", where=where(init, init.node))
@@ -120,6 +157,12 @@ CLAIM = {
 
 RE = "run_engine.py"
 MUTANTS = [
+    ("an empty persistent mapping is replaced by a private dict (seed C17-c)",
+     [(RE, "        if md is None:\n            md = {}\n        self.md = md\n", "        self.md = md or {}\n")], "C17.D3"),
+    ("the persistent mapping is copied",
+     [(RE, "        if md is None:\n            md = {}\n        self.md = md\n", "        if md is None:\n            md = {}\n        self.md = dict(md)\n")], "C17.D3"),
+    ("falsy mappings replaced through an if",
+     [(RE, "        if md is None:\n            md = {}\n        self.md = md\n", "        if not md:\n            md = {}\n        self.md = md\n")], "C17.D3"),
     ("open_run kwargs win over RE(...) kwargs", [(RE, "            self._metadata_per_call,  # from kwargs to self.__call__\n            msg.kwargs,  # from 'open_run' Msg\n", "            msg.kwargs,  # from 'open_run' Msg\n            self._metadata_per_call,  # from kwargs to self.__call__\n")], "C17.D1"),
     ("bundler receives the un-normalized metadata", [(RE, "        current_run = self._run_bundlers[run_key] = type(self).RunBundler(\n            validated,", "        current_run = self._run_bundlers[run_key] = type(self).RunBundler(\n            dict(md),")], "C17.D2"),
     ("validator skipped when there is per-call metadata", [(RE, "        self.md_validator(dict(md))\n", "        if not self._metadata_per_call:\n            self.md_validator(dict(md))\n")], "C17.D2"),
@@ -132,6 +175,7 @@ MUTANTS = [
     ("open_run kwargs written into per-call metadata", [(RE, "        # For metadata below, info about plan passed to self.__call__ for.\n", "        self._metadata_per_call.update(msg.kwargs)\n        # For metadata below, info about plan passed to self.__call__ for.\n")], "C17.D3"),
 ]
 BENIGN = [
+    ("md default written as a conditional expression", [(RE, "        if md is None:\n            md = {}\n        self.md = md\n", "        self.md = {} if md is None else md\n")]),
     ("merged metadata variable renamed", [(RE, "        md = ChainMap(\n            self._metadata_per_call,", "        merged = ChainMap(\n            self._metadata_per_call,"),
                                           (RE, "        self.md_validator(dict(md))\n\n        # Apply normalizer at the same level of the validator\n        validated = self.md_normalizer(copy.deepcopy(md))", "        self.md_validator(dict(merged))\n\n        # Apply normalizer at the same level of the validator\n        validated = self.md_normalizer(copy.deepcopy(merged))")]),
 ]
